@@ -89,9 +89,11 @@ theorem messages_roundtrip_plain (S S' R : Stream) (ops : List SendOp) (sent : L
 
 /-- **messages_roundtrip_encrypted**: the same on an AES-GCM stream — both ends installed the key
     after seeing the same cleartext (their digests agree); sizes are whatever the sender accepts,
-    in particular up to the limit minus the 16/32 bytes of overhead. -/
+    in particular up to the limit minus the 16/32 bytes of overhead. The two endpoints' fresh base
+    IVs differ (`hne`, two independent `crypto/rand` draws): a receiver refuses a first frame that
+    announces its own IV (fix D16, C02). -/
 theorem messages_roundtrip_encrypted (S S' R : Stream) (k : Nat) (ivS ivR : IV) (ops : List SendOp)
-    (sent : List WireFrame) (hdig : (R.dig.fr, R.dig.fs) = (S.dig.fs, S.dig.fr))
+    (sent : List WireFrame) (hdig : (R.dig.fr, R.dig.fs) = (S.dig.fs, S.dig.fr)) (hne : ivS ≠ ivR)
     (hfl : ∀ op ∈ ops, op.2 ≤ 1)
     (hsend : (S.setKey k ivS).sendAll ops = .ok (S', sent)) :
     (R.setKey k ivR).deliver sent = messagesOf [] ops := by
@@ -99,8 +101,10 @@ theorem messages_roundtrip_encrypted (S S' R : Stream) (k : Nat) (ivS ivR : IV) 
     sendAll_items ops _ S' 0 sent (setKey_sendInv S k ivS) hsend
   have hr : RecvInv (R.setKey k ivR) k ivS 0 0 :=
     ⟨rfl, rfl, rfl, by simp [Stream.setKey], fun h => absurd rfl h⟩
-  have hd : 0 + 0 = 0 → ((R.setKey k ivR).dig.fr, (R.setKey k ivR).dig.fs) = (S.dig.fs, S.dig.fr) := by
+  have hd : 0 + 0 = 0 → ((R.setKey k ivR).dig.fr, (R.setKey k ivR).dig.fs) = (S.dig.fs, S.dig.fr) ∧
+      ivS ≠ (R.setKey k ivR).encIV := by
     intro _
+    refine ⟨?_, hne⟩
     simp only [Stream.setKey]
     rw [Dig.fr_of_final (Dig.finalize_finalRecv _), Dig.fs_of_final (Dig.finalize_finalSend _)]
     exact hdig
